@@ -24,6 +24,7 @@ def check(ctx):
     # the record is the same for every bin of the plan: no kernel (with the helpers it calls) writes the samples it is handed
     from ..kernels import check_inputs_untouched
     check_inputs_untouched(ctx, rule="R11-record-untouched")
+    check_wrappers(ctx)
     from ..effects import check_no_shared_module_state
     check_no_shared_module_state(ctx, rule="R9-config-not-shared")
     ctx.trust("E3/E5 abstract interpreter and library model", "L1 Goertzel closed form", "L2", "L17 chunk partition")
